@@ -1,6 +1,9 @@
 package server
 
 import (
+	"os"
+	"strings"
+
 	"github.com/mimiro-io/datahub/internal/verifrt/engine"
 	"github.com/mimiro-io/datahub/internal/verifrt/model"
 )
@@ -41,6 +44,11 @@ func c05Scenarios() []SchedScenario {
 			Threads: [][]VOp{{{K: "create", DS: "C"}, b("C", e("e1", "v1"))}, {{K: "create", DS: "C"}, {K: "getin", DS: "C", Ents: []VEnt{e("e1", "v1")}}}}},
 		{Name: "S15-txn-waiting-for-a-lock-vs-batch-on-the-same-entity", Datasets: vDS, IDs: vIDs, Pre: []VOp{b("A", e("e1", "v1")), b("B", e("e1", "v1"))},
 			Threads: [][]VOp{{txn(map[string][]VEnt{"A": {e("e1", "v2r2")}, "B": {e("e1", "r23")}})}, {b("B", e("e1", "s")), {K: "get", Ents: []VEnt{e("e1", "v1")}}}}},
+		// a batch beyond the 16-bit boundary of the in-batch sequence number next to a reader that counts what one
+		// listing call and one feed page show: nothing or everything. Only badger snapshots and commits are
+		// scheduling points here (a snapshot read can only tell apart positions between commits)
+		{Name: "S16-huge-batch-vs-counting-reader", Datasets: []string{"A"}, IDs: []string{"e1"}, CoarseBadger: true,
+			Threads: [][]VOp{{{K: "batch", DS: "A", Ents: []VEnt{e("e1", "v1")}, N: 65600}}, {{K: "countlist", DS: "A"}, {K: "countfeed", DS: "A"}}}},
 		{Name: "S9-three-writers", Datasets: vDS, IDs: vIDs,
 			Threads: [][]VOp{{b("A", e("e1", "v1"))}, {b("B", e("e1", "v2"))}, {b("A", e("e1", "dv1"))}}},
 	}
@@ -51,13 +59,21 @@ func init() {
 		r.Rule = "SCHED: for every scenario (2-3 client goroutines on colliding ids/datasets) every interleaving of the scheduling points (lock acquisitions, sync.Map operations, badger snapshot/commit, named hook points) with at most the stated number of preemptions is executed on the real code under a cooperative scheduler; each execution must finish (deadlock = no enabled thread), must not panic, and its results and final state must be explained by a total order of the operations consistent with each client's order (single reads must equal a prefix state); distinct = distinct final observations"
 		r.Assumptions = []string{"badger transactions are linearizable; each badger call is one atomic step", "scheduling points at synchronisation operations and named points; data races elsewhere are outside (free-running -race pass not part of this check)"}
 		for _, sc := range c05Scenarios() {
+			if only := os.Getenv("VERIF_ONLY_SCENARIO"); only != "" && !strings.HasPrefix(sc.Name, only) {
+				continue // development aid: run a single scenario
+			}
+			if sc.CoarseBadger && r.Quick() {
+				continue // minutes of CPU: thorough tier only (the same mechanism is under C04's kill enumeration in both tiers)
+			}
 			bound := 2
-			if len(sc.Threads) > 2 {
+			if len(sc.Threads) > 2 || sc.CoarseBadger {
 				bound = 1
 			}
 			budget := 60
 			if !r.Quick() {
-				bound++
+				if !sc.CoarseBadger {
+					bound++ // a coarse execution stores 65 601 entities: bound 1 is what fits
+				}
 				budget = 600
 			}
 			engine.RunSched(r, engine.SchedSpec{Name: sc.Name, WorkerArgs: []string{"worker", "sched-store"}, Scenario: sc, Bound: bound, Horizon: 1500, BudgetS: budget})
